@@ -81,6 +81,12 @@ def run(ck):
     swept = _core.phase_tasks("stack", pp, [("client1", "sh"), ("sh", "client1"), ("client2", "sh"), ("sh", "client2")],
                               range(1, 60, 5 if quick else 1), range(1, 50, 6 if quick else 1),
                               facts={"nested": False, "base": "pool"})
+    # the same without anything that finishes the escaped future before shutdown() returns (wait=False / a delegate that
+    # does not join): the submitter is parked right after the gate check, the shutdown thread runs its snapshot and sweep
+    for base, wait in (("pool", False), ("manual", True)):
+        pq = dict(pp, base=base, shutdown={"at": 100, "wait": wait, "repeat": 1})
+        swept += _core.phase_tasks("stack", pq, [("client1", "sh"), ("client2", "sh")], range(1, 16),
+                                   range(4, 40, 4 if quick else 1), facts={"nested": False, "base": base})
     ck.run_and_validate(swept, TRACE, nontrivial=lambda t, r: True)
     ck.assumptions += ["cancel() arrivals are observed on the futures the executor returned (instance-level wrapper)",
                        "one thread calls shutdown(); submitters race with it from other threads"]
